@@ -21,10 +21,10 @@ type hookRule struct {
 	Role    string `json:"role,omitempty"`    // "" = any
 	Mode    string `json:"mode"`              // delay | until
 	DelayUs int    `json:"delay_us,omitempty"`
-	Permil  int    `json:"permil,omitempty"` // delay: probability per hit (0 = always)
-	Until   string `json:"until,omitempty"`  // latch name
+	Permil  int    `json:"permil,omitempty"`   // delay: probability per hit (0 = always)
+	Until   string `json:"until,omitempty"`    // latch name
 	AfterUs int    `json:"after_us,omitempty"` // until: extra delay after the latch fired
-	MaxMs   int    `json:"max_ms,omitempty"` // until: give up after (plan not realised)
+	MaxMs   int    `json:"max_ms,omitempty"`   // until: give up after (plan not realised)
 	Once    bool   `json:"once,omitempty"`
 	used    atomic.Int32
 }
@@ -173,6 +173,7 @@ func (hs *hookSet) handle(point, subject string) {
 			} else if r.AfterUs > 0 {
 				time.Sleep(time.Duration(r.AfterUs) * time.Microsecond)
 			}
+			hs.log.Rec("hook", subject, point, map[string]any{"role": role, "resumed": true})
 		}
 	}
 }
